@@ -44,7 +44,9 @@ HARNESS_FILES = {
     "source_c14.rs": ("src/source.rs", "verif_c14"),
     "lpc_c07.rs": ("src/lpc.rs", "verif_c07"),
     "coding_c07.rs": ("src/coding.rs", "verif_c07"),
+    "coding_c13.rs": ("src/coding.rs", "verif_c13"),
     "bitrepr_sub.rs": ("src/component/bitrepr.rs", "verif_sub"),
+    "bitrepr_c12.rs": ("src/component/bitrepr.rs", "verif_c12"),
 }
 
 
